@@ -82,6 +82,10 @@ S = [
     ("mod/sees_outer", "k := {H:3}; m := mod { y := k + 1 }; (k, m.y)", (3, 4)),
     ("mod/function_member_captures", "k := {H:3}; m := mod { f := (a: int) -> int { return a + k } }; k := {H:100}; (m.f)({H:1})", 4),
     ("set/rhs_sees_previous_binding", "x := {H:1}; x := x + 1; x := x * 10; x", 20),
+    # round k, C06-k1: the callee frame bound the function's own name AFTER the parameters
+    ("fn/parameter_named_like_the_function", "p := (p: int) -> int { return p + {H:1} }; h := p; ap := (g: (int) -> int, v: int) -> int { return g(v) }; (p(3), h(4), ap(p, 5))", (4, 5, 6)),
+    ("fn/parameter_named_like_the_function_captured", "p := (p: int) -> () -> int { return () -> int { return p * {H:2} } }; q := p(3); (q(), p(4)())", (6, 8)),
+    ("fn/recursive_parameter_shadowing_other_function", "g := (n: int) -> int { return n + {H:100} }; f := (g: int) -> int { if g < 1 { return 0 } return g + f(g - 1) }; (f(3), g(1))", (6, 101)),
     ("set/rhs_of_redeclaration_in_block", "x := {H:1}; r := { x := x + 1; x }; (x, r)", (1, 2)),
 ]
 REJECT = [
